@@ -51,6 +51,8 @@ def generate(tier, seed):
             r['ops'] = [['adapt', mk]] + (follow or [])
             if counter[0] % 7 == 0:
                 r['marked_as'] = 'list'
+            elif counter[0] % 7 == 3:
+                r['marked_as'] = 'int64'
             if counter[0] % 9 == 0:
                 r['ops'][0][1] = mk + [mk[0]]       # the set listed with a repetition (e.g. f2t[0, facets])
             recs.append(r)
@@ -62,6 +64,12 @@ def generate(tier, seed):
     p, t = U.line_points([0, 1, 2, 4, 5])
     p, t = U.submesh(p, t, [0, 1, 3])
     add('line', 'MeshLine1', p, t, all_subsets(3, rng, 100))
+    # segments with scrambled vertex numbers, right-to-left cells and cells listed out of order
+    p, t = U.line_points([0, 1, 2, 4, 7])
+    p, t = U.renumber(p, t, rng.permutation(p.shape[1]))
+    t = U.permute_cells(t, rng.permutation(t.shape[1]))
+    t[:, ::2] = t[::-1, ::2]
+    add('line', 'MeshLine1', p, t, all_subsets(t.shape[1], rng, 100), [['adapt', [0, 2, 4]], ['refine', 1]])
     # 8-triangle lattice meshes: every marked subset (255) for two diagonal patterns in quick, all 16 in thorough
     diag_sets = list(itertools.product((0, 1), repeat=4))
     chosen = diag_sets if thorough else [(0, 0, 0, 0), (0, 1, 1, 0)]
